@@ -131,6 +131,29 @@ def run_chars(N, first_cls):
     return run
 
 
+WIDE = {2: [0xC3, 0xA9], 3: [0xE2, 0x82, 0xAC], 4: [0xF0, 0x9F, 0x98, 0x80]}     # U+00E9, U+20AC, U+1F600 as UTF-8
+
+
+def run_utf8(N, at, width):
+    """N symbolic ASCII chars with one multi-byte char (given UTF-8 width) inserted before position `at`: the text is held
+    as its UTF-8 bytes, so byte offsets and char indices differ after the wide char; the result must be an error value"""
+    cs = [z3.Int('c%d' % i) for i in range(N)]
+
+    def run(m):
+        m.witness = dict(('c%d' % i, c) for i, c in enumerate(cs))
+        S.DIGIT_BOUND[0] = 40
+        for c in cs:
+            m.assume(z3.And(c >= 0, c < 0x80))
+        items = list(cs[:at]) + WIDE[width] + list(cs[at:])
+        r = call_parse(m, items)
+        m.labels.add('multi-byte text')
+        if r.variant == 'Ok':
+            return [('a string containing a non-ASCII char is not a numeral', True)]
+        m.labels.add('rejected')
+        return []
+    return run
+
+
 def run_structured(shape):
     """sign? int-digits [. frac-digits] e <symbolic exponent>; digits symbolic; exponent any integer with |e| <= 2^127+1"""
     sign, nint, nfrac, us = shape['sign'], shape['nint'], shape['nfrac'], shape.get('underscore')
@@ -195,11 +218,14 @@ def worker(t):
     prog = H.get_program()
     S.BITS_MODE[:] = ['uf', 128]
     k = t['kind']
-    run = run_chars(t['N'], t['first']) if k == 'chars' else (run_structured(t['shape']) if k == 'structured' else run_radix(t['N']))
+    run = run_chars(t['N'], t['first']) if k == 'chars' else (run_structured(t['shape']) if k == 'structured' else (run_utf8(t['N'], t['at'], t['width']) if k == 'utf8' else run_radix(t['N'])))
     return H.explore_task(prog, run, task=t, loop_bound=4000, timeout_ms=60000, deadline_s=1200, max_paths=400000)
 
 
 def model_string(t, mdl):
+    if t['kind'] == 'utf8':
+        cs = [chr(mdl['c%d' % i]) for i in range(t['N'])]
+        return ''.join(cs[:t['at']]) + bytes(WIDE[t['width']]).decode('utf-8') + ''.join(cs[t['at']:])
     if t['kind'] in ('chars', 'radix'):
         return ''.join(chr(mdl['c%d' % i]) for i in range(t['N']))
     sh = t['shape']
@@ -318,14 +344,19 @@ def main(tier):
     shapes.append({'sign': '-', 'nint': 2, 'nfrac': 0, 'dot': True})
     for sh in shapes:
         tasks.append({'kind': 'structured', 'shape': sh})
+    # text held as UTF-8 bytes with one multi-byte char: byte offsets and char indices part ways behind it
+    for N in range(0, (5 if tier == 'quick' else 6) + 1):
+        for at in range(0, N + 1):
+            for width in (2, 3, 4) if (tier != 'quick' or N <= 3) else (2,):
+                tasks.append({'kind': 'utf8', 'N': N, 'at': at, 'width': width})
     for N in (0, 1, 2, 3):
         tasks.append({'kind': 'radix', 'N': N})
     tasks.sort(key=lambda t: -t.get('N', 0))
-    rep.required_labels = {'accepted', 'rejected', 'radix', 'exponent: scale in range', 'exponent: scale overflow rejected'}
+    rep.required_labels = {'multi-byte text', 'accepted', 'rejected', 'radix', 'exponent: scale in range', 'exponent: scale overflow rejected'}
     rep.bounds = {'arbitrary strings': 'every string of 0..%d characters, each character any Unicode scalar value (symbolic)' % Nmax,
                   'structured numerals': '%d shapes: sign, up to 20+20 symbolic digits, underscore, dot, exponent any integer in +-(2^127+2) (symbolic, travels as a rendered integer)' % len(shapes),
                   'radix': 'any u32 != 10, strings of length <= 3'}
-    rep.assumptions = ['string positions are treated as character positions (all slicing in the parser is at positions found by ASCII patterns)',
+    rep.assumptions = ['in the arbitrary-string tasks positions are character positions (sound for code that slices only at offsets found by ASCII patterns); the utf8 tasks hold the text as UTF-8 bytes with one concrete multi-byte char so that char indices and byte offsets differ, and slicing inside a char panics as in std',
                        'i128::from_str and BigInt::from_str_radix acceptance rules as summarised (std; num-bigint 0.4)', 'str::from_utf8 in parse_bytes is std']
     rep.outside = ['arbitrary strings longer than the bound', 'parse_bytes UTF-8 validation itself']
     sys.stderr.write('[C05] %d tasks\n' % len(tasks))
